@@ -557,6 +557,50 @@ def rule_history(ctx, rule='R09.h', aliasing=True):
     ctx.floor(rule, n, 8, 'closure two-call history obligations')
 
 
+def rule_flag_reassigned(ctx, rule='R09.f'):
+    """apply_hard_core is a plain public attribute: setting it on an existing closure must have the effect of
+    constructing the closure with that value (a routine bound once in __init__ would ignore the new value)"""
+    n = 0
+    for dcls, f, users in defining_classes(ctx.prog):
+        cname = dcls.qualname
+        for flag in (False, True):
+            try:
+                want = run_closure(ctx.prog, dcls, flag)['res'].t
+
+                def run(preset, flag=flag, dcls=dcls):
+                    ip = Interp(ctx.prog)
+                    ip.preset = list(preset)
+                    for s_, k in (('u', 'curve'), ('g', 'curve'), ('r', 'curve'), ('sigma', 'scalar')):
+                        ip.declare(s_, k)
+                    o = ip.construct(dcls, [], {'apply_hard_core': Const(not flag)})
+                    o.origin = 'self'
+                    o.attrs['potential'] = Arr(U, 'self.potential', ip)
+                    o.attrs['sigma'] = Num(S)
+                    ip.set_attr(o, 'apply_hard_core', Const(flag), None)
+                    res = ip.call(ip.find_method(o, 'calculate'), [Arr(R, 'r', ip), Arr(G, 'gamma', ip)], {})
+                    return ip, {'res': res}
+                from ..interp import explore
+                worlds = [w for d, ip, w in explore(run, keep_raised=True) if ip is not None]
+            except (Unsupported, Raised) as e:
+                ctx.undecided(rule, cname, 'apply_hard_core:=%s after construction: %s' % (flag, e), f.loc())
+                continue
+            n += 1
+            bad = None
+            for w in worlds:
+                t = w['res'].t if isinstance(w['res'], (Arr, Num)) else None
+                if t is None or P.compare(t, want)[0]:
+                    bad = 'setting apply_hard_core = %s on a closure constructed with %s is ignored or mis-applied: calculate returns %s, ' \
+                          'a closure constructed with the flag returns %s' % (flag, not flag, P.show(t)[:120] if t is not None else w['res'], P.show(want)[:120])
+            if not worlds:
+                bad = 'no normally returning path after the flag was re-assigned'
+            if bad:
+                ctx.violation(rule, cname, 'flag-reassigned:%s' % flag, bad, f.loc())
+            else:
+                ctx.holds(rule, cname, 'apply_hard_core := %s after construction behaves like constructing with it' % flag, f.loc(),
+                          key='flag=%s' % flag)
+    ctx.floor(rule, n, 8, 'closure flag re-assignment obligations')
+
+
 def rule_history_values(ctx, rule='R09.h'):
     """the value-level half of R09.h (what C01 / C03 need): the second evaluation returns the terms of a fresh closure.
     Whether successive results are independent arrays is a purity clause of C09 only (PRISM.cost copies each result
